@@ -168,3 +168,62 @@ func VerifC06EventState() {
 	erp.Processor.AddEventAndWait(engine.NewEvent("e", []string{"a"}, state), nil)
 	zz.Reach("after-event")
 }
+
+var c06Stmts = []string{
+	"for x in v {\n}",
+	"for [a, b] in v {\n}",
+	"for [a, b, c] in v {\n}",
+	"if v {\n}",
+	"for v {\n break\n}",
+	"v()",
+	"v.a.b",
+	"new(v)",
+	"x := v.f(1)",
+	"try {\n raise(v)\n} except e {\n}",
+	"try {\n raise()\n} except e {\n}",
+	"m := {v : 1}",
+	"mutex m {\n x := v + 1\n}",
+	"func f(a=v) {\n return a\n}\nf()",
+	"x := [v, v][v]",
+	"x := -v",
+	"addEvent(v, v, v)",
+	"raise(v, v, v)",
+	"for i in range(v) {\n break\n}",
+	"x := len(v) + 1",
+	"doc(v)",
+	"type(v)",
+	"let v := v",
+	"v := v[0]",
+	"for [a, [b, c]] in v {\n}",
+	"x := v in v",
+	"return v",
+	"try {\n x := v.a\n} except \"E\" as e {\n} finally {\n y := v[0]\n}",
+}
+
+// c06Value2: the value universe plus uneven nested lists (destructuring loops) and a map inside a list.
+func c06Value2(label string, kind int) interface{} {
+	switch kind {
+	case zzKinds:
+		return []interface{}{[]interface{}{1.0, 2.0}, []interface{}{3.0}}
+	case zzKinds + 1:
+		return []interface{}{[]interface{}{}}
+	case zzKinds + 2:
+		return []interface{}{map[interface{}]interface{}{"a": 1.0}, 2.0}
+	case zzKinds + 3:
+		return map[interface{}]interface{}{"a": map[interface{}]interface{}{"b": zz.Float64(label + "_ab")}, 1.0: "x"}
+	}
+	return zzValue(label, kind)
+}
+
+// VerifC06Statements: statement templates with a value of arbitrary kind in the position that expects a particular
+// kind (iteration sources with uneven elements, guards, call targets, map keys, raise arguments, defaults ...).
+func VerifC06Statements() {
+	erp, _ := zzProvider()
+	si := zz.Choice("stmt", len(c06Stmts))
+	k := zz.Choice("kind", zzKinds+4)
+	vs := zzScope()
+	vs.SetValue("v", c06Value2("v", k))
+	zz.Reach("before-eval")
+	zzRun(erp, c06Stmts[si], vs)
+	zz.Reach("after-eval")
+}
